@@ -67,9 +67,9 @@ def cases(draw, tier="quick"):
         gn = int(np.prod(bys[gi]))
         kind = draw(st.sampled_from(["cat", "cat", "bins"]))
         if kind == "cat":
-            lab = gen.draw_labels(draw, gn, kinds=["int", "str", "float"], max_groups=3)
+            lab = gen.draw_labels(draw, gn, kinds=["int", "str", "float", "u1", "i2"], max_groups=3)
             present = sorted({v for v in lab["spec"]["v"] if v != "nan"})
-            extra = {"int": [20], "str": ["z"], "float": [99.5]}[lab["kind"]]
+            extra = {"int": [20], "str": ["z"], "float": [99.5], "u1": [77], "i2": [-77]}[lab["kind"]]
             labels = list(present)
             if draw(st.booleans()) and len(labels) > 1:
                 labels = labels[:-1]  # one present label is unrequested
